@@ -114,7 +114,9 @@ impl Program {
                     if Self::guard(it, acc) {
                         for (i, d) in it.deps.iter().enumerate() {
                             let v = self.scratch(env, d - 1);
-                            acc = self.step(it, i, acc, v);
+                            if !(it.mode == 4 && i == 0) {
+                                acc = self.step(it, i, acc, v);
+                            }
                         }
                     }
                 }
@@ -405,6 +407,31 @@ pub async fn run_node<C: Config>(ctx: &Arc<Ctx>, engine: &TrackedEngine<C>, n: u
                     for (i, (d, v)) in it.deps.iter().zip(vs).enumerate() {
                         guard.reads.lock().push((*d, v));
                         acc = ctx.prog.step(it, i, acc, v);
+                    }
+                }
+                4 => {
+                    // hedged read: the first dependency is requested and polled once; if it is still
+                    // pending it is DROPPED after the other dependencies of the item were read (the
+                    // executor goes on without it: a sub-query future cancelled inside a live executor)
+                    let mut probe = Box::pin(dep_read(ctx, engine, n, x, it.deps[0]));
+                    let first = futures::poll!(probe.as_mut());
+                    let mut vals: Vec<Option<i64>> = vec![match first {
+                        std::task::Poll::Ready(v) => Some(v),
+                        std::task::Poll::Pending => None,
+                    }];
+                    for d in &it.deps[1..] {
+                        vals.push(Some(dep_read(ctx, engine, n, x, *d).await));
+                        pause(ctx).await;
+                    }
+                    drop(probe);
+                    for (i, (d, v)) in it.deps.iter().zip(vals).enumerate() {
+                        if let Some(v) = v {
+                            guard.reads.lock().push((*d, v));
+                            // the hedged dependency never contributes to the result
+                            if i > 0 {
+                                acc = ctx.prog.step(it, i, acc, v);
+                            }
+                        }
                     }
                 }
                 3 => {
